@@ -29,6 +29,7 @@ NONELF = os.path.join(common.REPO, "README.md")
 RAISE = '"/nonexistent/x" dwopen'
 DIES = '"%s" dwopen entry ?TAG_pointer_type' % V1
 DIE_RENDER = {}          # offset -> (full dump, header form) as the CLI prints that DIE
+FILE_RENDER = {}         # (file, kind, offset) -> what the CLI prints for that DIE / unit alone
 QUERIES = [
     ("one", "1 drop 7"),
     ("many", "(1, 2, 3)"),
@@ -44,6 +45,7 @@ QUERIES = [
     ("some", "?(dup 1 ?eq)"),                                  # yields only for the combination whose TOS is 1
     ("dwpos", "?(type == T_DWARF) pos"),                                          # the position of the file among those that could be opened
     ("dwfirst", "?(type == T_DWARF) ?0 entry ?root name"),
+    ("units-and-dies", "?(type == T_DWARF) entry ?root (|E| (E unit, E, E unit, E child ?(pos == 0)))"),   # what one record looks like does not depend on the records before it
     ("compile", ")("),
     ("unknown", "nosuchword"),
 ]
@@ -68,6 +70,8 @@ ARGSETS = [
     [("--a", "(1, 2)"), ("--a", DIES)],
 ]
 OPTSETS = ["".join(c) for k in range(0, 6) for c in itertools.combinations("qscHh", k)]
+# -h wins over -H in whichever order they are given
+OPTSETS += [o.replace("Hh", "hH") for o in OPTSETS if "Hh" in o] + ["hqH", "hcHs"]
 
 
 def arg_expr(flag, text):
@@ -109,9 +113,16 @@ class Interner:
         self.full = {}
         self.header = {}
 
-    def get(self, v):
+    def get(self, v, dwfile=None):
         if v["t"] == "dwarf":
             full, hdr = v["show"], v["show"][len('<Dwarf "'):-2]
+        elif v["t"] in ("die", "cu") and dwfile is not None:
+            # a DIE / unit among the results: what the CLI prints for it when it prints nothing else
+            k = (dwfile, v["t"], v["off"])
+            if k not in FILE_RENDER:
+                q = ("entry ?(offset == %d)" if v["t"] == "die" else "unit ?(offset == %d)") % v["off"]
+                FILE_RENDER[k] = run_cli([dwfile, "-e", q])[1].rstrip("\n")
+            full = hdr = FILE_RENDER[k]
         elif v["t"] == "die":
             full, hdr = DIE_RENDER[v["off"]]
         else:
@@ -245,6 +256,7 @@ def run(ctx):
     if quick:
         # every (query, files, arguments) configuration under two random option sets
         invs = [(o, q, fs, a) for (q, fs, a) in configs for o in rng.sample(OPTSETS, 2)]
+        invs += [(o, q, fs, a) for k_, (q, fs, a) in enumerate(configs) if k_ % 7 == 0 for o in ("hH", "chH")]
     mlines = []
     for o, q, fs, a in invs:
         vals = [argvals[arg_expr(f, t)] for f, t in ARGSETS[a]]
@@ -262,7 +274,7 @@ def run(ctx):
                 cur = ([intern.get(dwval(files[c[0]], fidx[c.pop(0)]))] if FILESETS[fs] else []) + [intern.get(vs[k]) for vs, k in zip(vals, c)]
                 recs = []
                 for s in r.results:
-                    recs.append("r" + ".".join(str(intern.get(v)) for v in s))
+                    recs.append("r" + ".".join(str(intern.get(v, files[combo[0]] if FILESETS[fs] and QUERIES[q][0] == "units-and-dies" else None)) for v in s))
                 raised = 1 if (r.d.get("hard") or r.d.get("input_error")) else 0
                 ex.append("%s:%d:%s" % (".".join(map(str, cur)), raised, "|".join(recs)))
         if parse_ok and not vals and not FILESETS[fs]:
